@@ -1003,3 +1003,50 @@ func NotifyInOutageThenClose(res *fw.Result, seed int64) error {
 	res.Eval(true, []interface{}{"notify-in-outage-then-close"})
 	return nil
 }
+
+// CloseDuringBurst: many goroutines are submitting calls when the client is closed.  Every call returns (a
+// result or an error) — none may be left waiting for a connection routine that has gone.
+func CloseDuringBurst(res *fw.Result, seed int64) error {
+	for round := 0; round < 5; round++ {
+		run, closer, cancel, err := newRunner(seed+int64(round)*3+900, 0, true, jsonrpc.WithPingInterval(0), jsonrpc.WithTimeout(0))
+		if err != nil {
+			return err
+		}
+		base := nextToks(100000)
+		var wg sync.WaitGroup
+		stop := make(chan struct{})
+		var issued int64
+		for g := 0; g < 48; g++ {
+			wg.Add(1)
+			go func(g int) {
+				defer wg.Done()
+				for k := 0; ; k++ {
+					select {
+					case <-stop:
+						return
+					default:
+					}
+					atomic.AddInt64(&issued, 1)
+					if _, err := run.CL.Count(run.ctx, base+g*1000+k); err != nil {
+						return // the client is closed
+					}
+				}
+			}(g)
+		}
+		time.Sleep(time.Duration(3+round*2) * time.Millisecond)
+		scenClose(res, closer, "close during a burst")
+		close(stop)
+		if !scen.WithTimeout(3*time.Second, wg.Wait) {
+			res.Add(fw.Finding{Kind: "monitor", Signature: "close during a burst: calls never return", Detail: fmt.Sprintf("3s after the closer returned some of the calls submitted around the close (of %d issued by 48 goroutines) have still not returned", atomic.LoadInt64(&issued)),
+				Case: map[string]interface{}{"scenario": "close-during-burst", "round": round}})
+		}
+		res.Count("close-during-burst")
+		res.Eval(true, []interface{}{"close-during-burst", round})
+		cancel()
+		run.E.Close()
+		if res.Enough() {
+			break
+		}
+	}
+	return nil
+}
